@@ -76,6 +76,8 @@ func (c *contentValidator) ValidateOwnershipChange(ch *aclrecordproto.AclOwnersh
 	newOwnerStatus := c.aclState.accountStates[mapKeyFromPubKey(identity)]
 	if newOwnerStatus.Status != StatusActive ||
 		newOwnerPerms.IsOwner() ||
+		// a guest can't be upgraded to another permission, ownership included
+		newOwnerPerms.IsGuest() ||
 		oldOwnerPerms.IsOwner() ||
 		oldOwnerPerms.NoPermissions() {
 		return ErrInsufficientPermissions
